@@ -31,7 +31,7 @@ PROPS["C16"] = {
          }},
         {"pkg": "curve", "configs": {"quick": ["default", "purego", "force32bit"], "thorough": ["default", "noavx2", "purego", "force32bit"]},
          "tests": {
-             "TestC16Equation": T(3000, 60000, shards={"quick": 8, "thorough": 16}),
+             "TestC16Equation": T(6000, 60000, shards={"quick": 8, "thorough": 16}),
          }},
     ],
 }
